@@ -1,6 +1,6 @@
 """Factory for S1 properties whose oracle is `errors = f(orig, graph, stage)`."""
-from vf.s1common import s1_jobs, sig_of, graph_features, front_end_jobs
-from vf.oracles.hier import build_scfg, orig_map, STAGES, flatten, regions
+from vf.s1common import s1_jobs, sig_of, graph_features, front_end_jobs, exc_signature
+from vf.oracles.hier import build_scfg, orig_map, STAGES, flatten, regions, staged, route_stages
 
 
 def make(oracle, stages=(1, 2, 3), payloads=("basic",), kind="structure", nontrivial=None, quick_n5_max_edges=None, front_ends=True):
@@ -10,14 +10,16 @@ def make(oracle, stages=(1, 2, 3), payloads=("basic",), kind="structure", nontri
         fails = []
         front = desc.get("kind") in ("source", "bytecode")
         for payload in (payloads[:1] if front else payloads):
-            for k in stages:
-                g = build_scfg(desc, payload)
-                orig_blocks = dict(g.graph)
+            for k in route_stages(desc, stages):
+                if payload == "ast" and (desc.get("route") or "direct") != "direct":
+                    continue  # AST payloads have no dictionary form
                 try:
-                    for s in STAGES[:k]:
-                        getattr(g, s)()
-                except Exception:
+                    g, orig_blocks = staged(desc, payload, k)
+                except Exception as e:
+                    # no graph, hence nothing of what the property promises about the result of this stage
                     fails.append({"kind": "skip", "signature": "", "detail": f"stage prefix {k} raised"})
+                    fails.append({"kind": "stage-exception", "signature": f"s{k}:stage-exception:{exc_signature(e)}",
+                                  "detail": f"stage prefix {k} ({desc.get('route') or 'direct'}) raised {type(e).__name__}: {e}"[:300]})
                     break
                 try:
                     errs = oracle(desc, orig_blocks, g, k, payload)
